@@ -116,3 +116,17 @@ claim("C12",
       "values with <= 2 decimals; WebVTT arithmetic judged for layouts with an origin; "
       "language-level fit-to-screen in DFXP is an open known finding",
       "DESIGN.md 3/C12")
+claim("C07",
+      "Hypothesis API-built caption sets (metacharacter style values / ids / language codes, "
+      "layouts at every level, balanced STYLE nodes, writer options) + every reader-produced "
+      "set of the 162 repository documents + generated documents; three DFXP writers; output "
+      "parsed by lxml without recovery and checked structurally",
+      "Generated-input search: 10k (thorough 300k) API-built sets, 1944 corpus x writer x "
+      "option combinations (exhaustive over the corpus), 5k (150k) sets read from generated "
+      "documents. Oracle: strict XML parse, root tt in the TTML namespace, one div per written "
+      "language, one p with begin/end per caption (per concurrent run for legacy/single), "
+      "every style=/region= reference resolves to exactly one head definition, unique xml:id, "
+      "no unreferenced region.",
+      "lxml with collect_ids=False (xml:id NCName-ness is not part of the property; uniqueness "
+      "is checked by the harness); style ids equal to generated region ids are an open finding",
+      "DESIGN.md 3/C07")
